@@ -68,8 +68,8 @@ fn run_family<F: Family>(p: &Program, verbose: bool, passthrough: bool) -> RunRe
     static_facts::<F>();
     reset_registry();
     crate::context::clear();
-    reg(|r| r.fault = p.fault);
-    if p.fault.is_some() {
+    reg(|r| r.faults = p.fault.iter().map(|f| (f.0, f.1, false)).collect());
+    if !p.fault.is_empty() {
         probes::hit(P_RUN_FAULT_ARMED);
     }
     let (cseed, replay) = match &p.choices {
